@@ -302,6 +302,16 @@ def TA.remove (t : TA) (h : Host) : TA :=
   let r := cowRemove t.hosts h.addr
   let t1 : TA := { t with hosts := r.1 }
   { (if r.2 then t1.refresh else t1) with pol := t.pol.remove h }
+/-- `AddHosts(hosts)` (what `Session.init` calls with the hosts of the first ring refresh, the policy having the
+method): `for host: t.hosts.add(host)` (results ignored); `resetTokenRing; updateAllReplicas` ONCE and
+UNCONDITIONALLY (also when no host was new); then `for host: fallback.AddHost(host)` -/
+def TA.addHosts (t : TA) (hs : List Host) : TA :=
+  let t1 : TA := { t with hosts := hs.foldl (fun l h => (cowAdd l h).1) t.hosts }
+  { t1.refresh with pol := hs.foldl Pol.add t.pol }
+/-- `SetPartitioner(p)` with a supported partitioner name: `if t.partitioner != p { t.partitioner = p; resetTokenRing;
+updateAllReplicas }` - the ring comes into being from the hosts already known, every held table (and the session
+keyspace's) is computed; a second call with the same name changes nothing -/
+def TA.setPartitioner (t : TA) : TA := if t.partSet then t else ({ t with partSet := true }).refresh
 def TA.hostUp (t : TA) (h : Host) : TA := { t with pol := t.pol.add h }
 def TA.hostDown (t : TA) (h : Host) : TA := { t with pol := t.pol.remove h }
 
@@ -441,6 +451,78 @@ def TA.nextN (t : TA) (up : Nat → Bool) (it : Iter) : Nat → TA × Iter × Li
     match t.nextIter up it with
     | (t1, it1, .host h) =>
       let r := TA.nextN t1 up it1 n
+      (r.1, r.2.1, h :: r.2.2.1, r.2.2.2)
+    | (t1, it1, e) => (t1, it1, [], some e)
+
+/-! ### the iterator as the code runs it: the up/down state of a host is read AT THE CALL that looks at it (w-s11f)
+
+`Iter` above fixes the up/down state for the life of an iterator (its `head` is filtered when `Pick` is called). The
+code reads `h.IsUp()` when a call of the iterator reaches `h`: in the replica phase (`for i < len(replicas)`), in the
+walk over the remote buckets, and inside the fallback iterator (`roundRobbin`). `LIter` keeps what is still to be
+LOOKED AT: the tier-0 replicas (`q1`), the replicas of the farther tiers tier by tier (`q2`, only with the non-local
+option; the code fills the buckets while it walks the replica list - the whole list has been walked before the
+first bucket is read), and the positions of the fallback iterator (`fb`, created at the first call that gets past the
+replica phases: ONE snapshot of the lists; `none` = the index computation panics at that position). The `used` map
+of the token-aware iterator holds exactly the hosts it has offered: `given` (a query handed to the fallback policy as
+it is gets the fallback policy's own iterator, which has no such map: `plain`). With the state fixed `LIter` offers what `Iter`
+offers (cross-checked by the model driver at every call; not proved). -/
+
+structure LIter where
+  given : List Host
+  q1 : List Host
+  q2 : List Host
+  fb : Option (List (Option Host))
+  /-- the query was handed to the fallback policy as it is: the iterator IS the fallback policy's (`roundRobbin`), which
+  keeps no `used` map -/
+  plain : Bool := false
+deriving Repr
+
+/-- the positions the iterator of the next `Pick` of the round-robin based policy looks at, layer after layer -/
+def Pol.positions (p : Pol) : List (Option Host) := (p.layers.map (layerScan p.shift)).flatten
+
+/-- `Pick(qry)` -/
+def TA.openL (t : TA) (σ : List Host → List Host) (rk : Option (Nat × Nat)) : TA × LIter :=
+  let plain : TA × LIter := ({ t with pol := t.pol.bump }, ⟨[], [], [], some t.pol.positions, true⟩)
+  match rk with
+  | none => plain
+  | some (ks, tok) =>
+    match t.replicasFor ks tok with
+    | .noRing => plain
+    | .emptyRing => plain
+    | .hosts l ft =>
+      let reps := if ft && t.shuffle then σ l else l
+      (t, ⟨[], localReplicas t.pol.tier (fun _ => true) reps,
+           if t.nonlocal then remoteWalk (fun _ => true) (remoteBuckets t.pol.tier t.pol.maxTier reps) else [], none, false⟩)
+
+/-- the walk of the fallback phase: the next position whose host is up NOW and was not offered by this iterator;
+a position whose index computation panics ends everything -/
+def scanPos (up : Nat → Bool) (used : List Host) : List (Option Host) → Next × List (Option Host)
+  | [] => (.done, [])
+  | none :: r => (.panic, r)
+  | some h :: r => if up h.id && !used.contains h then (.host h, r) else scanPos up used r
+
+/-- one call of the iterator in policy state `t`, the states of the host objects being `up` NOW -/
+def TA.nextL (t : TA) (up : Nat → Bool) (it : LIter) : TA × LIter × Next :=
+  match it.q1.dropWhile (fun h => !up h.id) with
+  | x :: r => (t, { it with q1 := r, given := it.given ++ [x] }, .host x)
+  | [] =>
+    match it.q2.dropWhile (fun h => !up h.id) with
+    | x :: r => (t, { it with q1 := [], q2 := r, given := it.given ++ [x] }, .host x)
+    | [] =>
+      let st : TA × List (Option Host) := match it.fb with
+        | some ps => (t, ps)
+        | none => ({ t with pol := t.pol.bump }, t.pol.positions)
+      match scanPos up (if it.plain then [] else it.given) st.2 with
+      | (.host x, rest) => (st.1, { it with q1 := [], q2 := [], fb := some rest, given := it.given ++ [x] }, .host x)
+      | (e, rest) => (st.1, { it with q1 := [], q2 := [], fb := some rest }, e)
+
+/-- `n` calls (stopping at nil / a panic) with the state fixed meanwhile -/
+def TA.nextLN (t : TA) (up : Nat → Bool) (it : LIter) : Nat → TA × LIter × List Host × Option Next
+  | 0 => (t, it, [], none)
+  | n + 1 =>
+    match t.nextL up it with
+    | (t1, it1, .host h) =>
+      let r := TA.nextLN t1 up it1 n
       (r.1, r.2.1, h :: r.2.2.1, r.2.2.2)
     | (t1, it1, e) => (t1, it1, [], some e)
 
